@@ -764,6 +764,8 @@ def pos_over_same(x, pos, fam, depth=0):
         return "bound is len() of the same sequence"
     if pos_n.get("k") == "Binary" and pos_n["op"] == "Add" and int_lit(pos_n["r"]) == 1 and depth < 3:
         inner = pos_over_same(x, pos_n["l"], fam, depth + 1)
+        if inner and "str::find" in inner and "one-byte" not in inner:
+            return None         # (behind a multi-byte pattern `+ 1` is not a char boundary)
         if inner and "payload" in inner and "+ 1" not in inner:
             return "index payload + 1 (index < len => index + 1 <= len)"
         return None
@@ -831,6 +833,7 @@ def pos_over_same(x, pos, fam, depth=0):
         if init is not None and (init.get("k") in ("Match", "If", "Binary")
                                  or F.is_call(init, "std::option::Option::<T>::map_or", "std::option::Option::<T>::unwrap_or")):
             return pos_over_same(x, init, fam, depth + 1)
+    str_find = None
     for path, expr, how in srcs:
         if expr is None:
             return None
@@ -852,11 +855,19 @@ def pos_over_same(x, pos, fam, depth=0):
         elif F.is_call(e, "core::slice::<impl [T]>::binary_search_by", "core::slice::<impl [T]>::binary_search"):
             if not FL.same_place(e["args"][0], x):
                 return None
+        elif F.is_call(e, "core::str::<impl str>::find", "core::str::<impl str>::rfind"):
+            # byte index of a match in the same str: a char boundary < len
+            if not FL.same_place(e["args"][0], x):
+                return None
+            pat = str_lit(e["args"][1])
+            str_find = "one-byte pattern" if (pat is not None and len(pat.encode("utf-8")) == 1) else "pattern"
         else:
             return None
     if reassigned(x, fam) and F.strip(x).get("k") in ("Var", "Upvar"):
         # the sequence binding must not change between the search and the slice
         return None
+    if str_find:
+        return "split point is the payload of str::find/rfind (%s) over the same (unmodified) str" % str_find
     return "split point is the payload of position()/binary_search over the same (unmodified) sequence"
 
 
